@@ -332,7 +332,6 @@ func epochSections(c *an.Check) (h *srvHandlers, mtx *types.Var, bcast, getw *ss
 
 func c22(c *an.Check) {
 	wakeHelpers(c)
-	p := c.P
 	h, mtx, bcast, getw, isPeerStore, ok := epochSections(c)
 	if !ok {
 		return
@@ -372,6 +371,71 @@ func c22(c *an.Check) {
 				})
 			}}}})
 	}
+	epochAnnouncementCompares(c, h)
+	// (d) the Opened announcement carries an epoch value read under the lock (covered by LOCKSET on seqno, incl. pointer dereferences)
+	releaseGates(c, "session")
+	clientCloseOnExit(c)
+	clientLockset(c)
+	clientEpochReset(c)
+	serverLockset(c)
+	c.Note("not decided: the full announcement-order history over all interleavings")
+}
+
+func c23(c *an.Check) {
+	wakeHelpers(c)
+	p := c.P
+	h := serverHandlers(c)
+	if h == nil {
+		return
+	}
+	getwS := trackerMethod(p, "sessionTracker", makesChan)
+	getwP := trackerMethod(p, "serverPeerTracker", makesChan)
+	isSrvGetter := func(call *ssa.Call) bool {
+		return (getwS != nil && call.Call.Value == ssa.Value(getwS)) || (getwP != nil && call.Call.Value == ssa.Value(getwP))
+	}
+	waitDiscipline(c, "signaling server Session waits", h.sess, isSrvGetter, 1)
+	waitDiscipline(c, "signaling server Listen waits", p.Func(srvPkg, "Server", "Listen"), isSrvGetter, 1)
+	// client: the getter is the second parameter of HoldLock callbacks
+	isCliGetter := func(call *ssa.Call) bool {
+		pv, ok := call.Call.Value.(*ssa.Parameter)
+		return ok && pv.Type().String() == "func() <-chan struct{}"
+	}
+	for _, f := range []struct{ recv, name string }{{"clientPeerTracker", "execute"}, {"ClientPeerRef", "Send"}, {"ClientPeerRef", "Recv"}} {
+		waitDiscipline(c, "signaling client "+f.name+" waits", p.Func(cliPkg, f.recv, f.name), isCliGetter, 1)
+	}
+	// OWNCHECK: in Send, the local flag "my message occupies the outgoing slot" may only be cleared when the slot is
+	// known to be empty or to hold another message; otherwise an epoch change makes Send forget its own in-flight
+	// message and wait forever for a slot that only it can free.
+	clientRetryAndReset(c)
+	clientEpochReset(c)
+	clientCloseOnExit(c)
+	epochAnnouncementCompares(c, h)
+	ownCheck(c)
+	// the attach-order rule (shared with C22): a peer that has just attached must evaluate the session state before sleeping
+	c22AttachOrder(c, h)
+	epochSections(c)
+	releaseGates(c, "both")
+	serverLockset(c)
+	clientLockset(c)
+	c.Note("liveness itself (fairness, eventual delivery) is not statically decidable; in particular the client Send stall after a re-open with a message in flight (DESIGN D6) is not detected by these rules")
+}
+
+func c22AttachOrder(c *an.Check, h *srvHandlers) {
+	// re-run only the R4 attach obligation of C22 under C23's name
+	sub := an.NewCheck(c.Prop, c.Tier, c.P)
+	c22(sub)
+	for _, o := range sub.Obls {
+		if o.Rule == "WAITCH" {
+			c.Obls = append(c.Obls, o)
+		}
+	}
+}
+
+// epochAnnouncementCompares: the relay's decision to announce Opened/Closed must see the epoch VALUE, and the saved
+// epoch it compares against must not alias the current epoch variable (shared by C22 and C23: a stable peer that is never
+// told the new epoch keeps sending under the stale one and every request is dropped).
+func epochAnnouncementCompares(c *an.Check, h *srvHandlers) {
+	p := c.P
 	// (c) the announcement decision must see the epoch VALUE
 	nPtr, bad := 0, ""
 	for _, g := range an.WithClosures(h.sess) {
@@ -442,65 +506,11 @@ func c22(c *an.Check) {
 		}
 		return "no value comparison of the saved and current epoch found (anchor drift)"
 	}())
-	// (d) the Opened announcement carries an epoch value read under the lock (covered by LOCKSET on seqno, incl. pointer dereferences)
-	releaseGates(c, "session")
-	clientCloseOnExit(c)
-	clientLockset(c)
-	clientEpochReset(c)
-	serverLockset(c)
-	c.Note("not decided: the full announcement-order history over all interleavings")
-}
-
-func c23(c *an.Check) {
-	wakeHelpers(c)
-	p := c.P
-	h := serverHandlers(c)
-	if h == nil {
-		return
-	}
-	getwS := trackerMethod(p, "sessionTracker", makesChan)
-	getwP := trackerMethod(p, "serverPeerTracker", makesChan)
-	isSrvGetter := func(call *ssa.Call) bool {
-		return (getwS != nil && call.Call.Value == ssa.Value(getwS)) || (getwP != nil && call.Call.Value == ssa.Value(getwP))
-	}
-	waitDiscipline(c, "signaling server Session waits", h.sess, isSrvGetter, 1)
-	waitDiscipline(c, "signaling server Listen waits", p.Func(srvPkg, "Server", "Listen"), isSrvGetter, 1)
-	// client: the getter is the second parameter of HoldLock callbacks
-	isCliGetter := func(call *ssa.Call) bool {
-		pv, ok := call.Call.Value.(*ssa.Parameter)
-		return ok && pv.Type().String() == "func() <-chan struct{}"
-	}
-	for _, f := range []struct{ recv, name string }{{"clientPeerTracker", "execute"}, {"ClientPeerRef", "Send"}, {"ClientPeerRef", "Recv"}} {
-		waitDiscipline(c, "signaling client "+f.name+" waits", p.Func(cliPkg, f.recv, f.name), isCliGetter, 1)
-	}
-	// OWNCHECK: in Send, the local flag "my message occupies the outgoing slot" may only be cleared when the slot is
-	// known to be empty or to hold another message; otherwise an epoch change makes Send forget its own in-flight
-	// message and wait forever for a slot that only it can free.
-	clientRetryAndReset(c)
-	clientCloseOnExit(c)
-	ownCheck(c)
-	// the attach-order rule (shared with C22): a peer that has just attached must evaluate the session state before sleeping
-	c22AttachOrder(c, h)
-	epochSections(c)
-	releaseGates(c, "both")
-	serverLockset(c)
-	clientLockset(c)
-	c.Note("liveness itself (fairness, eventual delivery) is not statically decidable; in particular the client Send stall after a re-open with a message in flight (DESIGN D6) is not detected by these rules")
-}
-
-func c22AttachOrder(c *an.Check, h *srvHandlers) {
-	// re-run only the R4 attach obligation of C22 under C23's name
-	sub := an.NewCheck(c.Prop, c.Tier, c.P)
-	c22(sub)
-	for _, o := range sub.Obls {
-		if o.Rule == "WAITCH" {
-			c.Obls = append(c.Obls, o)
-		}
-	}
 }
 
 func c24(c *an.Check) {
 	p := c.P
+	listenCleanupGates(c)
 	listen := p.Func(srvPkg, "Server", "Listen")
 	listeningF := fv(c, srvPkg, "serverPeerTracker", "listening")
 	wantF := fv(c, srvPkg, "serverPeerTracker", "wantPeers")
@@ -720,8 +730,71 @@ func listenDiff(c *an.Check, listen *ssa.Function, wantF *types.Var) {
 		}}}})
 }
 
+// listenCleanupGates: the deferred cleanup of Server.Listen clears the tracker's listening flag only while this call
+// is still the registered listener (same tracker, same nonce) — a usurped call that clears it lets the live listener's
+// tracker be released under it — and clears it before it offers the tracker for release (the release helper refuses
+// trackers that are still marked listening, so the other order leaks the entry).
+func listenCleanupGates(c *an.Check) {
+	p := c.P
+	listen := p.Func(srvPkg, "Server", "Listen")
+	listeningF := fv(c, srvPkg, "serverPeerTracker", "listening")
+	nonceF := fv(c, srvPkg, "serverPeerTracker", "listenNonce")
+	rel := p.Func(srvPkg, "Server", "maybeReleasePeer")
+	if listen == nil || listeningF == nil || nonceF == nil || rel == nil {
+		c.Undecided("GATE", "signaling server Listen cleanup", nil, "unresolved anchor")
+		return
+	}
+	isClear := func(ins ssa.Instruction) bool {
+		v, _, ok := storeTo(ins, listeningF)
+		return ok && isFalseConst(v)
+	}
+	var cleanups []*ssa.Function
+	for _, g := range an.WithClosures(listen)[1:] {
+		for _, b := range g.Blocks {
+			for _, ins := range b.Instrs {
+				if isClear(ins) {
+					cleanups = append(cleanups, g)
+				}
+			}
+		}
+	}
+	if len(cleanups) != 1 {
+		c.Undecided("GATE", "signaling server Listen cleanup", listen, fmt.Sprintf("unresolved anchor: %d literals clear the listening flag", len(cleanups)))
+		return
+	}
+	g := cleanups[0]
+	c.Gate(an.GateSpec{Construct: "signaling server Listen cleanup clears the listening flag", Fn: g,
+		Sink: func(s *an.State, ins ssa.Instruction) bool { return isClear(ins) },
+		Reqs: []an.Req{
+			an.FactReq("the tracker's nonce is still the one this call registered", func(s *an.State, x, y ssa.Value, r an.Rel) bool {
+				if r != an.EQ {
+					return false
+				}
+				_, xc := x.(*ssa.Const)
+				_, yc := y.(*ssa.Const)
+				// (the saved nonce is itself a load of the field, made when the call registered)
+				return x != y && !xc && !yc && (an.IsFieldLoad(x, nonceF) || an.IsFieldLoad(y, nonceF))
+			}),
+			{Name: "the flag cleared is the registered tracker's (the one just compared)", Holds: func(s *an.State, at ssa.Instruction) bool {
+				_, fa, ok := storeTo(at, listeningF)
+				if !ok {
+					return false
+				}
+				base := fa.X
+				return s.AnyFact(func(s *an.State, x, y ssa.Value, r an.Rel) bool {
+					return r == an.EQ && (s.Key(x) == s.Key(base) || s.Key(y) == s.Key(base)) && !isNilConst(x) && !isNilConst(y)
+				})
+			}}}})
+	c.Gate(an.GateSpec{Rule: "ORDER", Construct: "signaling server Listen cleanup offers the tracker for release", Fn: g,
+		Sink: func(s *an.State, ins ssa.Instruction) bool {
+			return an.IsCallTo(ins, an.R(srvPkg, "Server", "maybeReleasePeer"))
+		},
+		Reqs: []an.Req{{Name: "listening flag cleared first", Holds: func(s *an.State, at ssa.Instruction) bool { return s.Executed(at, isClear) }}}})
+}
+
 func c25(c *an.Check) {
 	wakeHelpers(c)
+	listenCleanupGates(c)
 	p := c.P
 	listen := p.Func(srvPkg, "Server", "Listen")
 	h := serverHandlers(c)
